@@ -625,6 +625,7 @@ impl Server {
                 blocked_at: Instant::now(),
                 deadline: wakeup.deadline,
                 op_type: wakeup.op_type.clone(),
+                order: wakeup.order,
             });
         }
         // If value is None (list was empty), the client should be timed out normally
